@@ -40,6 +40,7 @@ MODULES = {
     'C06': ['contracts.wrappers'],
     'C18': ['contracts.wrappers'],
     'C09': ['contracts.c09', 'contracts.pit_layers'],
+    'C14': ['contracts.c14'],
     'C07': ['contracts.c07', 'contracts.wrappers'],
 }
 
